@@ -91,7 +91,7 @@ def run(ctx):
     exes = C13.build_sides(ctx)
     per = 25 if ctx.tier == 'quick' else 300
     if exes:
-        r = ctx.rng; cases = []
+        r = ctx.rng; cases = C13.load_corpus('C12', WAVE); ctx.extra['corpus_cases'] = len(cases)
         for k in WAVE:
             for i in range(per):
                 hl, ep = C13.gen_case(r, k); cases.append((k, hl, ep))
